@@ -289,4 +289,214 @@ theorem sstLoop_encode (certs : List Bytes) (acc : List Bytes) (tail : Bytes) (h
     rw [this]
     simp
 
+/-! ### base64 -/
+
+theorem b64Val_b64Char : ∀ v, v < 64 → b64Val (b64Char v) = some v := by decide
+
+theorem ofNat_eq (n : Nat) (x : UInt8) (h : n % 256 = x.toNat) : UInt8.ofNat n = x := by
+  apply UInt8.toNat_inj.mp
+  rw [UInt8.toNat_ofNat']
+  simpa using h
+
+theorem q4 (a b c : UInt8) :
+    qBytes [a.toNat / 4, a.toNat % 4 * 16 + b.toNat / 16, b.toNat % 16 * 4 + c.toNat / 64, c.toNat % 64] = [a, b, c] := by
+  have ha := a.toNat_lt; have hb := b.toNat_lt; have hc := c.toNat_lt
+  simp only [qBytes, qVal, List.length_cons, List.length_nil, List.take]
+  have e : a.toNat / 4 * 262144 + (a.toNat % 4 * 16 + b.toNat / 16) * 4096 + (b.toNat % 16 * 4 + c.toNat / 64) * 64 + c.toNat % 64
+      = a.toNat * 65536 + b.toNat * 256 + c.toNat := by omega
+  rw [e]
+  congr 1
+  · apply ofNat_eq; omega
+  · congr 1
+    · apply ofNat_eq; omega
+    · congr 1; apply ofNat_eq; omega
+
+theorem q3 (a b : UInt8) :
+    qBytes [a.toNat / 4, a.toNat % 4 * 16 + b.toNat / 16, b.toNat % 16 * 4] = [a, b] := by
+  have ha := a.toNat_lt; have hb := b.toNat_lt
+  simp only [qBytes, qVal, List.length_cons, List.length_nil, List.take]
+  have e : a.toNat / 4 * 262144 + (a.toNat % 4 * 16 + b.toNat / 16) * 4096 + (b.toNat % 16 * 4) * 64
+      = a.toNat * 65536 + b.toNat * 256 := by omega
+  rw [e]
+  congr 1
+  · apply ofNat_eq; omega
+  · congr 1; apply ofNat_eq; omega
+
+theorem q2 (a : UInt8) : qBytes [a.toNat / 4, a.toNat % 4 * 16] = [a] := by
+  have ha := a.toNat_lt
+  simp only [qBytes, qVal, List.length_cons, List.length_nil, List.take]
+  have e : a.toNat / 4 * 262144 + (a.toNat % 4 * 16) * 4096 = a.toNat * 65536 := by omega
+  rw [e]
+  congr 1; apply ofNat_eq; omega
+
+theorem b64Val_pad : b64Val 61 = none := by decide
+
+
+theorem go_val (c : UInt8) (rest : Str) (acc : List Nat) (out : Bytes) (v : Nat) (h : b64Val c = some v) (hl : acc.length ≠ 3) :
+    b64Go (c :: rest) acc out = b64Go rest (acc ++ [v]) out := by
+  rw [b64Go, h]; simp [hl]
+
+theorem go_val3 (c : UInt8) (rest : Str) (acc : List Nat) (out : Bytes) (v : Nat) (h : b64Val c = some v) (hl : acc.length = 3) :
+    b64Go (c :: rest) acc out = b64Go rest [] (out ++ qBytes (acc ++ [v])) := by
+  rw [b64Go, h]; simp [hl]
+
+theorem go_pad2 (acc : List Nat) (out : Bytes) (hl : acc.length = 2) :
+    b64Go [61, 61] acc out = (out ++ qBytes acc, false) := by
+  rw [b64Go, b64Val_pad]; simp [isNL, skipNL, hl]
+
+theorem go_pad3 (acc : List Nat) (out : Bytes) (hl : acc.length = 3) :
+    b64Go [61] acc out = (out ++ qBytes acc, false) := by
+  rw [b64Go, b64Val_pad]; simp [isNL, skipNL, hl]
+
+/-- decoding the standard encoding of `bs` returns `bs` and no error (for every byte string) -/
+theorem b64Go_encode (bs : Bytes) (out : Bytes) : b64Go (b64Encode bs) [] out = (out ++ bs, false) := by
+  induction bs using b64Encode.induct generalizing out with
+  | case1 => simp [b64Encode, b64Go]
+  | case2 a =>
+    have ha := a.toNat_lt
+    simp only [b64Encode]
+    rw [go_val _ _ _ _ _ (b64Val_b64Char _ (by omega)) (by simp)]
+    rw [go_val _ _ _ _ _ (b64Val_b64Char _ (by omega)) (by simp)]
+    rw [go_pad2 _ _ (by simp)]
+    simp [q2]
+  | case3 a b =>
+    have ha := a.toNat_lt; have hb := b.toNat_lt
+    simp only [b64Encode]
+    rw [go_val _ _ _ _ _ (b64Val_b64Char _ (by omega)) (by simp)]
+    rw [go_val _ _ _ _ _ (b64Val_b64Char _ (by omega)) (by simp)]
+    rw [go_val _ _ _ _ _ (b64Val_b64Char _ (by omega)) (by simp)]
+    rw [go_pad3 _ _ (by simp)]
+    simp [q3]
+  | case4 a b c rest ih =>
+    have ha := a.toNat_lt; have hb := b.toNat_lt; have hc := c.toNat_lt
+    simp only [b64Encode]
+    rw [go_val _ _ _ _ _ (b64Val_b64Char _ (by omega)) (by simp)]
+    rw [go_val _ _ _ _ _ (b64Val_b64Char _ (by omega)) (by simp)]
+    rw [go_val _ _ _ _ _ (b64Val_b64Char _ (by omega)) (by simp)]
+    rw [go_val3 _ _ _ _ _ (b64Val_b64Char _ (by omega)) (by simp)]
+    simp [q4, ih]
+
+/-! ### hex keys are injective; SST stores with property elements -/
+
+theorem hexDigitB_inj : ∀ a, a < 16 → ∀ b, b < 16 → hexDigitB a = hexDigitB b → a = b := by decide
+
+theorem hexStr_inj (a b : Bytes) (h : hexStr a = hexStr b) : a = b := by
+  induction a generalizing b with
+  | nil => cases b with
+    | nil => rfl
+    | cons y ys => simp [hexStr] at h
+  | cons x xs ih =>
+    cases b with
+    | nil => simp [hexStr] at h
+    | cons y ys =>
+      simp only [hexStr, List.cons.injEq] at h
+      obtain ⟨h1, h2, h3⟩ := h
+      have hx := x.toNat_lt; have hy := y.toNat_lt
+      have e1 := hexDigitB_inj _ (by omega) _ (by omega) h1
+      have e2 := hexDigitB_inj _ (by omega) _ (by omega) h2
+      have : x = y := UInt8.toNat_inj.mp (by omega)
+      rw [this, ih ys h3]
+
+theorem sstLoop_prop (id format : Nat) (v rest : Bytes) (acc : List Bytes)
+    (hid : id < 256 ^ 4) (h0 : id ≠ 0) (h32 : id ≠ 32) (hf : format < 256 ^ 4) (hv : v.length < 256 ^ 4) :
+    sstLoop (leBytes 4 id ++ (leBytes 4 format ++ (leBytes 4 v.length ++ (v ++ rest)))) acc = sstLoop rest acc := by
+  have hl := leBytes_length 4 id
+  rw [sstLoop]
+  have : ¬ ((leBytes 4 id ++ (leBytes 4 format ++ (leBytes 4 v.length ++ (v ++ rest)))).length < 4) := by
+    simp only [List.length_append]; omega
+  simp only [this, dite_false]
+  rw [List.take_left' hl, List.drop_left' hl, leVal_leBytes]
+  rw [readU32_leBytes format hf, readU32_leBytes v.length hv]
+  rw [Nat.mod_eq_of_lt hid]
+  simp [h0, h32]
+
+/-- well-formed element: id, format and length fit their u32 fields, the id is not the end marker, and a
+    certificate element (id 32) declares ASN.1 encoding (format 1) -/
+def SstElemOk (e : SstElem) : Prop :=
+  e.id < 256 ^ 4 ∧ e.id ≠ 0 ∧ e.format < 256 ^ 4 ∧ e.value.length < 256 ^ 4 ∧ (e.id = 32 → e.format = 1)
+
+theorem sstLoop_elems (es : List SstElem) (acc : List Bytes) (tail : Bytes) (h : ∀ e ∈ es, SstElemOk e) :
+    sstLoop ((es.map sstElemBytes).flatten ++ (leBytes 4 0 ++ tail)) acc = .ok (acc ++ sstCerts es) := by
+  induction es generalizing acc with
+  | nil => simp [sstLoop_end, sstCerts]
+  | cons e rest ih =>
+    obtain ⟨h1, h2, h3, h4, h5⟩ := h e (by simp)
+    simp only [List.map_cons, List.flatten_cons, sstElemBytes, List.append_assoc]
+    by_cases h32 : e.id = 32
+    · rw [h32, h5 h32, sstLoop_cert e.value _ acc h4]
+      have := ih (acc ++ [e.value]) (fun x hx => h x (by simp [hx]))
+      rw [this]
+      simp [sstCerts, h32]
+    · rw [sstLoop_prop e.id e.format e.value _ acc h1 h2 h32 h3 h4]
+      rw [ih acc (fun x hx => h x (by simp [hx]))]
+      simp [sstCerts, h32]
+
+theorem leVal_natLE (n : Nat) : leVal (natLE n) = n := by
+  induction n using Nat.strongRecOn with
+  | _ n ih =>
+    rw [natLE]
+    by_cases h0 : n = 0
+    · simp [h0, leVal]
+    · simp only [h0, dite_false, leVal]
+      have hlt : n / 256 < n := Nat.div_lt_self (by omega) (by omega)
+      rw [ih _ hlt]
+      have : (UInt8.ofNat (n % 256)).toNat = n % 256 := by
+        rw [UInt8.toNat_ofNat']; omega
+      rw [this]
+      omega
+
+/-- `new(big.Int).SetBytes(n.Bytes()) = n` -/
+theorem beVal_natBE (n : Nat) : beVal (natBE n) = n := by
+  simp [beVal, natBE, leVal_natLE]
+
+theorem b64Decode_encode (bs : Bytes) : b64Decode (b64Encode bs) = (bs, false) := by
+  unfold b64Decode
+  simpa using b64Go_encode bs []
+
+theorem b64Encode_isEmpty (bs : Bytes) : (b64Encode bs).isEmpty = bs.isEmpty := by
+  match bs with
+  | [] => simp [b64Encode]
+  | [_] => simp [b64Encode]
+  | [_, _] => simp [b64Encode]
+  | _ :: _ :: _ :: _ => simp [b64Encode]
+
+/-! ### OneCRL field decoding -/
+
+theorem cond_iff (r : Rec) : (!r.subject.isEmpty && !r.pubKeyHash.isEmpty) = true ↔ r.subject ≠ [] ∧ r.pubKeyHash ≠ [] := by
+  simp
+
+theorem decodePkixName_ok (name : Str) (ntbl : Bytes → Option Str) (s : Str) (raw : Bytes) :
+    decodePkixName name ntbl = .ok (s, raw) ↔ b64Decode name = (raw, false) ∧ ntbl raw = some s := by
+  unfold decodePkixName
+  cases he : (b64Decode name).2
+  · simp only [Bool.false_eq_true, if_false]
+    cases ht : ntbl (b64Decode name).1 with
+    | none =>
+      constructor
+      · intro h; cases h
+      · rintro ⟨h1, h2⟩; rw [h1] at ht; rw [ht] at h2; cases h2
+    | some x =>
+      simp only [Res.ok.injEq, Prod.mk.injEq]
+      constructor
+      · rintro ⟨h1, h2⟩
+        subst h1 h2
+        exact ⟨by rw [← he], ht⟩
+      · rintro ⟨h1, h2⟩
+        rw [h1] at ht
+        simp only at ht
+        rw [ht] at h2
+        cases h2
+        exact ⟨rfl, by rw [h1]⟩
+  · simp only [if_true]
+    constructor
+    · intro h; cases h
+    · rintro ⟨h1, _⟩; rw [h1] at he; cases he
+
+theorem decodePkixName_noPanic (name : Str) (ntbl : Bytes → Option Str) : decodePkixName name ntbl ≠ .panic := by
+  unfold decodePkixName
+  split
+  · simp
+  · split <;> simp
+
+
 end ZV.C15
